@@ -485,7 +485,7 @@ class Fn:
             if not ds:
                 return ("arg", l, nm or "_%d" % l)
             return ("local", l, nm or "_%d" % l)
-        if depth <= 0 or (stop and l in stop):
+        if depth <= 0 or (stop and (l in stop or ("named" in stop and nm is not None))):
             return ("local", l, nm or "_%d" % l)
         sd = self.single_def(l)
         if sd is None:
